@@ -1,5 +1,6 @@
 //! C11 — suspicion timeout takes effect iff unrefuted; Down is final until forgotten.
 use super::kit::*;
+use super::oracle::*;
 use super::state::*;
 use crate::{ConnectionState, State, Timer};
 
@@ -36,7 +37,7 @@ pub fn c11_timeout_iff<S: Src>(s: &mut S) {
     );
     let post = snap(&f);
     vassert!(r.is_ok(), "c11: handle_timer(ChangeSuspectToDown) returns Ok");
-    vassert!(!rt.overflow, "c11: effect log large enough");
+    post_common(&pre, &post, &f, &rt, Ctx::quiet());
 
     let same = match rec {
         Some((rid, rinc, _)) => rid == member_id && rinc == inc,
